@@ -14,6 +14,7 @@ from ..stages import *
 from . import _hidabs as H
 from . import _placement as P
 from . import _flexalg as FA
+from . import _gridalg as GA
 
 THEOREMS = [
     'C06_grid_never_placed : Forall2 (same_but Absolute (fun _ _ => True)) cs cs\' -> in_flow_children cs = in_flow_children cs\'',
@@ -37,6 +38,14 @@ THEOREMS = [
     'C06_flex_algorithm_abs_blind : AbsBlind flex_alg f_visible_absolute fout_eq flay_eq   [flex_alg = compute_flexbox_layout as a resumption, '
     'Model/FlexAlg.v, K-exact against the event trace of the implementation]',
     'C06_blockflex_engine_instance : the conclusion of C06_abs_blind_engine for engines of block containers, flex containers and leaves',
+    'C06_grid_algorithm_abs_blind_refuted : Forall2 (arel g_visible_absolute) [abs child on grid_row 4] [bare abs child] /\\ grid_alg (grid-auto-rows 7px) returns heights 28 / 7 / 0 (no child) /\\ '
+    '~ ABis .. /\\ ~ AbsBlind grid_alg g_visible_absolute gout_eq glay_eq   [grid_alg = compute_grid_layout as a resumption, Model/GridAlg.v, K-exact against the event trace]',
+    'C06_grid_algorithm_abs_blind_lines : (forall ab <= g_visible_absolute, Forall2 (a = b \\/ (ab a /\\ ab b /\\ same grid_row /\\ same grid_column)) st st\' -> '
+    'ABis (abmask ab st) (grid_alg s st i) (grid_alg s st\' i)) /\\ (forall r c, AbsBlind grid_alg (ab_lines r c) gout_eq glay_eq)',
+    'C06_grid_engine_instance : the conclusion of C06_abs_blind_engine for engines of grid containers and leaves, ab = box-generating absolute on lines (r, c)',
+    'C06_abs_blind_engine_keyed : AbsBlindK algo ab key oeq leq -> asimK t t\' -> memo f t i = Some (o, t1) -> memo f\' t\' i = Some (o\', t1\') -> asimK t1 t1\' /\\ (ab (style t) = false -> oeq o o\');  AbsBlind -> AbsBlindK',
+    'C06_grid_algorithm_abs_blind_keyed : AbsBlindK grid_alg g_visible_absolute (fun s => (gs_row s, gs_column s)) gout_eq glay_eq',
+    'C06_taffy_engine_instance : AbsChildLocal abs_child -> the keyed conclusion for engines of block, flex, grid containers and leaves (taffy_algo), ab = box-generating absolute, key = grid lines',
 ]
 
 
@@ -56,8 +65,10 @@ def run(rep, tier, seed, replay=None):
         'the translated item pipeline, Model/Block.v inflow_step (K1/K2/K3 of C10/C06) and an absolute-item routine abstracted to "addresses only '
         'item.node_id", which the translator checks syntactically) and for the FLEX algorithm as modelled in Model/FlexAlg.v (all of '
         'compute_flexbox_layout as a resumption; the absolute pass is the kernel translated for C11; hand model validated event by event, bit for bit, '
-        'against the implementation by `vh flexalg cases` on every run); NOT proved for the grid tail: validated through the metamorphic '
-        'oracle on the implementation; REFUTED for grid on the known class (C06_grid_estimate_absolute_refuted)',
+        'against the implementation by `vh flexalg cases` on every run); for the GRID algorithm as modelled in Model/GridAlg.v (all of compute_grid_layout '
+        'as a resumption; the absolute pass is the kernel translated for C11; validated event by event, bit for bit, by `vh gridalg cases` on every run) full '
+        'AbsBlind is REFUTED (C06_grid_algorithm_abs_blind_refuted = the known finding) and the complement "blind to everything about an absolute child but '
+        'its grid lines" is PROVED (C06_grid_algorithm_abs_blind_lines)',
         'translator/gen_filters.py (item-generation pipelines, per-item predicates of block.rs, syntactic locality checks); fails closed',
         'that track counts determine the container size (track sizing, 7px auto rows: 28 vs 7) is observed on the implementation '
         '(`vh c06 witness`), not modelled'])
@@ -82,6 +93,10 @@ def run(rep, tier, seed, replay=None):
         H.block_k(rep, 'C06', binp, seed + 660, 3600 if escalate else 900, p_absolute=300, p_hidden=0)
         # ---- K4: the flex resumption (Model/FlexAlg.v) vs the event trace of compute_flexbox_layout (another seed than C05)
         FA.flexalg_k(rep, 'C06', binp, seed + 6060, 1500 if escalate else 400, payload_is_broken=False)
+        # ---- K5: the grid resumption (Model/GridAlg.v) vs the event trace of compute_grid_layout (family 2: absolute children, no display:none
+        #      ones), + the witness of C06_grid_algorithm_abs_blind_refuted on the implementation (heights 28 / 7 / 0, events reproduced)
+        GA.gridalg_k(rep, 'C06', binp, seed + 6161, 1200 if escalate else 400, family=2, payload_is_broken=False)
+        GA.abs_witness(rep, 'C06', binp)
     for t in THEOREMS:
         rep.cov['samples'].append({'theorem': t})
     # ---- search
